@@ -272,3 +272,4 @@ theorem i4c_inv4x_step_flushF1 (f : Sem) (j : Job) (cl : Cluster) (s s' : Sys)
       simpa [Sys.inFlight, Sys.todoPairs] using hf
 
 end EkwVerif.Ctrl
+
